@@ -53,7 +53,9 @@ Definition flag_word (f : flags) : N :=
 Record writer := { wtid : option tid; whead : list bufid; wbufs : list bufid; wrote : bool }.
 Definition w_idle := {| wtid := None; whead := []; wbufs := []; wrote := false |}.
 
-Inductive msg := MStart (b : bufid) | MEnd (b : bufid) | MLost (n : N).
+(* MExec b = TASK_START of a task the recorder already knows (exec: same tid, new libmcount session); the message
+   itself carries only the tid, fst b; b (ghost) is the buffer the old image was recording into *)
+Inductive msg := MStart (b : bufid) | MEnd (b : bufid) | MLost (n : N) | MExec (b : bufid).
 
 (* ghost log of one producer: what it put into its buffers, and what it had to drop *)
 Inductive pev := Emit (r : rec) | Marker (n : N) (r : rec) | Drop (r : rec).
@@ -65,6 +67,9 @@ Record st := {
   flag : bufid -> flags;
   stale : bufid -> N;              (* depth bits left at offset 0 of the buffer (the LOST record does not set them) *)
   nbuf : tid -> nat;               (* shmem->nr_buf; 0 = thread not started *)
+  rbase : tid -> nat;              (* index (in this model's numbering) of buffer 0 of the task's current libmcount
+                                      session: after exec the new image has its own shm names; they are numbered
+                                      on from the old ones, (t, rbase t + k) = buffer k of the new session *)
   curr : tid -> option nat;        (* shmem->curr; None = -1 *)
   losts : tid -> N;
   pdone : tid -> bool;
@@ -82,44 +87,46 @@ Record st := {
 }.
 
 Definition set_data (s : st) (v : bufid -> list rec) : st :=
-  {| data := v; flag := flag s; stale := stale s; nbuf := nbuf s; curr := curr s; losts := losts s; pdone := pdone s; plog := plog s; chan := chan s; shl := shl s; bwl := bwl s; ws := ws s; lostcnt := lostcnt s; gmark := gmark s; kicks := kicks s; stopped := stopped s; joined := joined s; file := file s |}.
+  {| data := v; flag := flag s; stale := stale s; nbuf := nbuf s; rbase := rbase s; curr := curr s; losts := losts s; pdone := pdone s; plog := plog s; chan := chan s; shl := shl s; bwl := bwl s; ws := ws s; lostcnt := lostcnt s; gmark := gmark s; kicks := kicks s; stopped := stopped s; joined := joined s; file := file s |}.
 Definition set_flag (s : st) (v : bufid -> flags) : st :=
-  {| data := data s; flag := v; stale := stale s; nbuf := nbuf s; curr := curr s; losts := losts s; pdone := pdone s; plog := plog s; chan := chan s; shl := shl s; bwl := bwl s; ws := ws s; lostcnt := lostcnt s; gmark := gmark s; kicks := kicks s; stopped := stopped s; joined := joined s; file := file s |}.
+  {| data := data s; flag := v; stale := stale s; nbuf := nbuf s; rbase := rbase s; curr := curr s; losts := losts s; pdone := pdone s; plog := plog s; chan := chan s; shl := shl s; bwl := bwl s; ws := ws s; lostcnt := lostcnt s; gmark := gmark s; kicks := kicks s; stopped := stopped s; joined := joined s; file := file s |}.
 Definition set_stale (s : st) (v : bufid -> N) : st :=
-  {| data := data s; flag := flag s; stale := v; nbuf := nbuf s; curr := curr s; losts := losts s; pdone := pdone s; plog := plog s; chan := chan s; shl := shl s; bwl := bwl s; ws := ws s; lostcnt := lostcnt s; gmark := gmark s; kicks := kicks s; stopped := stopped s; joined := joined s; file := file s |}.
+  {| data := data s; flag := flag s; stale := v; nbuf := nbuf s; rbase := rbase s; curr := curr s; losts := losts s; pdone := pdone s; plog := plog s; chan := chan s; shl := shl s; bwl := bwl s; ws := ws s; lostcnt := lostcnt s; gmark := gmark s; kicks := kicks s; stopped := stopped s; joined := joined s; file := file s |}.
 Definition set_nbuf (s : st) (v : tid -> nat) : st :=
-  {| data := data s; flag := flag s; stale := stale s; nbuf := v; curr := curr s; losts := losts s; pdone := pdone s; plog := plog s; chan := chan s; shl := shl s; bwl := bwl s; ws := ws s; lostcnt := lostcnt s; gmark := gmark s; kicks := kicks s; stopped := stopped s; joined := joined s; file := file s |}.
+  {| data := data s; flag := flag s; stale := stale s; nbuf := v; rbase := rbase s; curr := curr s; losts := losts s; pdone := pdone s; plog := plog s; chan := chan s; shl := shl s; bwl := bwl s; ws := ws s; lostcnt := lostcnt s; gmark := gmark s; kicks := kicks s; stopped := stopped s; joined := joined s; file := file s |}.
+Definition set_rbase (s : st) (v : tid -> nat) : st :=
+  {| data := data s; flag := flag s; stale := stale s; nbuf := nbuf s; rbase := v; curr := curr s; losts := losts s; pdone := pdone s; plog := plog s; chan := chan s; shl := shl s; bwl := bwl s; ws := ws s; lostcnt := lostcnt s; gmark := gmark s; kicks := kicks s; stopped := stopped s; joined := joined s; file := file s |}.
 Definition set_curr (s : st) (v : tid -> option nat) : st :=
-  {| data := data s; flag := flag s; stale := stale s; nbuf := nbuf s; curr := v; losts := losts s; pdone := pdone s; plog := plog s; chan := chan s; shl := shl s; bwl := bwl s; ws := ws s; lostcnt := lostcnt s; gmark := gmark s; kicks := kicks s; stopped := stopped s; joined := joined s; file := file s |}.
+  {| data := data s; flag := flag s; stale := stale s; nbuf := nbuf s; rbase := rbase s; curr := v; losts := losts s; pdone := pdone s; plog := plog s; chan := chan s; shl := shl s; bwl := bwl s; ws := ws s; lostcnt := lostcnt s; gmark := gmark s; kicks := kicks s; stopped := stopped s; joined := joined s; file := file s |}.
 Definition set_losts (s : st) (v : tid -> N) : st :=
-  {| data := data s; flag := flag s; stale := stale s; nbuf := nbuf s; curr := curr s; losts := v; pdone := pdone s; plog := plog s; chan := chan s; shl := shl s; bwl := bwl s; ws := ws s; lostcnt := lostcnt s; gmark := gmark s; kicks := kicks s; stopped := stopped s; joined := joined s; file := file s |}.
+  {| data := data s; flag := flag s; stale := stale s; nbuf := nbuf s; rbase := rbase s; curr := curr s; losts := v; pdone := pdone s; plog := plog s; chan := chan s; shl := shl s; bwl := bwl s; ws := ws s; lostcnt := lostcnt s; gmark := gmark s; kicks := kicks s; stopped := stopped s; joined := joined s; file := file s |}.
 Definition set_pdone (s : st) (v : tid -> bool) : st :=
-  {| data := data s; flag := flag s; stale := stale s; nbuf := nbuf s; curr := curr s; losts := losts s; pdone := v; plog := plog s; chan := chan s; shl := shl s; bwl := bwl s; ws := ws s; lostcnt := lostcnt s; gmark := gmark s; kicks := kicks s; stopped := stopped s; joined := joined s; file := file s |}.
+  {| data := data s; flag := flag s; stale := stale s; nbuf := nbuf s; rbase := rbase s; curr := curr s; losts := losts s; pdone := v; plog := plog s; chan := chan s; shl := shl s; bwl := bwl s; ws := ws s; lostcnt := lostcnt s; gmark := gmark s; kicks := kicks s; stopped := stopped s; joined := joined s; file := file s |}.
 Definition set_plog (s : st) (v : tid -> list pev) : st :=
-  {| data := data s; flag := flag s; stale := stale s; nbuf := nbuf s; curr := curr s; losts := losts s; pdone := pdone s; plog := v; chan := chan s; shl := shl s; bwl := bwl s; ws := ws s; lostcnt := lostcnt s; gmark := gmark s; kicks := kicks s; stopped := stopped s; joined := joined s; file := file s |}.
+  {| data := data s; flag := flag s; stale := stale s; nbuf := nbuf s; rbase := rbase s; curr := curr s; losts := losts s; pdone := pdone s; plog := v; chan := chan s; shl := shl s; bwl := bwl s; ws := ws s; lostcnt := lostcnt s; gmark := gmark s; kicks := kicks s; stopped := stopped s; joined := joined s; file := file s |}.
 Definition set_chan (s : st) (v : list msg) : st :=
-  {| data := data s; flag := flag s; stale := stale s; nbuf := nbuf s; curr := curr s; losts := losts s; pdone := pdone s; plog := plog s; chan := v; shl := shl s; bwl := bwl s; ws := ws s; lostcnt := lostcnt s; gmark := gmark s; kicks := kicks s; stopped := stopped s; joined := joined s; file := file s |}.
+  {| data := data s; flag := flag s; stale := stale s; nbuf := nbuf s; rbase := rbase s; curr := curr s; losts := losts s; pdone := pdone s; plog := plog s; chan := v; shl := shl s; bwl := bwl s; ws := ws s; lostcnt := lostcnt s; gmark := gmark s; kicks := kicks s; stopped := stopped s; joined := joined s; file := file s |}.
 Definition set_shl (s : st) (v : list bufid) : st :=
-  {| data := data s; flag := flag s; stale := stale s; nbuf := nbuf s; curr := curr s; losts := losts s; pdone := pdone s; plog := plog s; chan := chan s; shl := v; bwl := bwl s; ws := ws s; lostcnt := lostcnt s; gmark := gmark s; kicks := kicks s; stopped := stopped s; joined := joined s; file := file s |}.
+  {| data := data s; flag := flag s; stale := stale s; nbuf := nbuf s; rbase := rbase s; curr := curr s; losts := losts s; pdone := pdone s; plog := plog s; chan := chan s; shl := v; bwl := bwl s; ws := ws s; lostcnt := lostcnt s; gmark := gmark s; kicks := kicks s; stopped := stopped s; joined := joined s; file := file s |}.
 Definition set_bwl (s : st) (v : list bufid) : st :=
-  {| data := data s; flag := flag s; stale := stale s; nbuf := nbuf s; curr := curr s; losts := losts s; pdone := pdone s; plog := plog s; chan := chan s; shl := shl s; bwl := v; ws := ws s; lostcnt := lostcnt s; gmark := gmark s; kicks := kicks s; stopped := stopped s; joined := joined s; file := file s |}.
+  {| data := data s; flag := flag s; stale := stale s; nbuf := nbuf s; rbase := rbase s; curr := curr s; losts := losts s; pdone := pdone s; plog := plog s; chan := chan s; shl := shl s; bwl := v; ws := ws s; lostcnt := lostcnt s; gmark := gmark s; kicks := kicks s; stopped := stopped s; joined := joined s; file := file s |}.
 Definition set_ws (s : st) (v : list writer) : st :=
-  {| data := data s; flag := flag s; stale := stale s; nbuf := nbuf s; curr := curr s; losts := losts s; pdone := pdone s; plog := plog s; chan := chan s; shl := shl s; bwl := bwl s; ws := v; lostcnt := lostcnt s; gmark := gmark s; kicks := kicks s; stopped := stopped s; joined := joined s; file := file s |}.
+  {| data := data s; flag := flag s; stale := stale s; nbuf := nbuf s; rbase := rbase s; curr := curr s; losts := losts s; pdone := pdone s; plog := plog s; chan := chan s; shl := shl s; bwl := bwl s; ws := v; lostcnt := lostcnt s; gmark := gmark s; kicks := kicks s; stopped := stopped s; joined := joined s; file := file s |}.
 Definition set_lostcnt (s : st) (v : N) : st :=
-  {| data := data s; flag := flag s; stale := stale s; nbuf := nbuf s; curr := curr s; losts := losts s; pdone := pdone s; plog := plog s; chan := chan s; shl := shl s; bwl := bwl s; ws := ws s; lostcnt := v; gmark := gmark s; kicks := kicks s; stopped := stopped s; joined := joined s; file := file s |}.
+  {| data := data s; flag := flag s; stale := stale s; nbuf := nbuf s; rbase := rbase s; curr := curr s; losts := losts s; pdone := pdone s; plog := plog s; chan := chan s; shl := shl s; bwl := bwl s; ws := ws s; lostcnt := v; gmark := gmark s; kicks := kicks s; stopped := stopped s; joined := joined s; file := file s |}.
 Definition set_gmark (s : st) (v : N) : st :=
-  {| data := data s; flag := flag s; stale := stale s; nbuf := nbuf s; curr := curr s; losts := losts s; pdone := pdone s; plog := plog s; chan := chan s; shl := shl s; bwl := bwl s; ws := ws s; lostcnt := lostcnt s; gmark := v; kicks := kicks s; stopped := stopped s; joined := joined s; file := file s |}.
+  {| data := data s; flag := flag s; stale := stale s; nbuf := nbuf s; rbase := rbase s; curr := curr s; losts := losts s; pdone := pdone s; plog := plog s; chan := chan s; shl := shl s; bwl := bwl s; ws := ws s; lostcnt := lostcnt s; gmark := v; kicks := kicks s; stopped := stopped s; joined := joined s; file := file s |}.
 Definition set_kicks (s : st) (v : nat) : st :=
-  {| data := data s; flag := flag s; stale := stale s; nbuf := nbuf s; curr := curr s; losts := losts s; pdone := pdone s; plog := plog s; chan := chan s; shl := shl s; bwl := bwl s; ws := ws s; lostcnt := lostcnt s; gmark := gmark s; kicks := v; stopped := stopped s; joined := joined s; file := file s |}.
+  {| data := data s; flag := flag s; stale := stale s; nbuf := nbuf s; rbase := rbase s; curr := curr s; losts := losts s; pdone := pdone s; plog := plog s; chan := chan s; shl := shl s; bwl := bwl s; ws := ws s; lostcnt := lostcnt s; gmark := gmark s; kicks := v; stopped := stopped s; joined := joined s; file := file s |}.
 Definition set_stopped (s : st) (v : bool) : st :=
-  {| data := data s; flag := flag s; stale := stale s; nbuf := nbuf s; curr := curr s; losts := losts s; pdone := pdone s; plog := plog s; chan := chan s; shl := shl s; bwl := bwl s; ws := ws s; lostcnt := lostcnt s; gmark := gmark s; kicks := kicks s; stopped := v; joined := joined s; file := file s |}.
+  {| data := data s; flag := flag s; stale := stale s; nbuf := nbuf s; rbase := rbase s; curr := curr s; losts := losts s; pdone := pdone s; plog := plog s; chan := chan s; shl := shl s; bwl := bwl s; ws := ws s; lostcnt := lostcnt s; gmark := gmark s; kicks := kicks s; stopped := v; joined := joined s; file := file s |}.
 Definition set_joined (s : st) (v : bool) : st :=
-  {| data := data s; flag := flag s; stale := stale s; nbuf := nbuf s; curr := curr s; losts := losts s; pdone := pdone s; plog := plog s; chan := chan s; shl := shl s; bwl := bwl s; ws := ws s; lostcnt := lostcnt s; gmark := gmark s; kicks := kicks s; stopped := stopped s; joined := v; file := file s |}.
+  {| data := data s; flag := flag s; stale := stale s; nbuf := nbuf s; rbase := rbase s; curr := curr s; losts := losts s; pdone := pdone s; plog := plog s; chan := chan s; shl := shl s; bwl := bwl s; ws := ws s; lostcnt := lostcnt s; gmark := gmark s; kicks := kicks s; stopped := stopped s; joined := v; file := file s |}.
 Definition set_file (s : st) (v : tid -> list rec) : st :=
-  {| data := data s; flag := flag s; stale := stale s; nbuf := nbuf s; curr := curr s; losts := losts s; pdone := pdone s; plog := plog s; chan := chan s; shl := shl s; bwl := bwl s; ws := ws s; lostcnt := lostcnt s; gmark := gmark s; kicks := kicks s; stopped := stopped s; joined := joined s; file := v |}.
+  {| data := data s; flag := flag s; stale := stale s; nbuf := nbuf s; rbase := rbase s; curr := curr s; losts := losts s; pdone := pdone s; plog := plog s; chan := chan s; shl := shl s; bwl := bwl s; ws := ws s; lostcnt := lostcnt s; gmark := gmark s; kicks := kicks s; stopped := stopped s; joined := joined s; file := v |}.
 
 Definition init (nw : nat) : st :=
-  {| data := fun _ => []; flag := fun _ => fl0; stale := fun _ => 0%N; nbuf := fun _ => 0; curr := fun _ => None;
+  {| data := fun _ => []; flag := fun _ => fl0; stale := fun _ => 0%N; nbuf := fun _ => 0; rbase := fun _ => 0; curr := fun _ => None;
      losts := fun _ => 0%N; pdone := fun _ => false; plog := fun _ => []; chan := []; shl := []; bwl := [];
      ws := repeat w_idle nw; lostcnt := 0%N; gmark := 0%N; kicks := 0; stopped := false; joined := false;
      file := fun _ => [] |}.
@@ -162,7 +169,7 @@ Fixpoint find_free_from (s : st) (t : tid) (i k : nat) : option nat :=
   | 0 => None
   | S k' => if f_rec (flag s (t, i)) then find_free_from s t (S i) k' else Some i
   end.
-Definition find_free (s : st) (t : tid) : option nat := find_free_from s t 0 (nbuf s t).
+Definition find_free (s : st) (t : tid) : option nat := find_free_from s t (rbase s t) (nbuf s t - rbase s t).
 
 Definition count_written (s : st) (t : tid) (from upto : nat) : nat :=
   length (filter (fun i => is_wr (flag s (t, i))) (seq from (upto - from))).
@@ -236,6 +243,25 @@ Definition p_start (s : st) (t : tid) : option st :=
     Some (set_chan s5 (chan s5 ++ [MStart (t, 0)]))
   else None.
 
+(* exec(): the image is replaced while the task keeps its tid.  The old image's current buffer stays as it is (REC_START
+   sent, no REC_END); the new libmcount starts a new session: two fresh buffers, REC_START for the first, then
+   TASK_START (mcount_prepare).  (exec while the thread has no buffer - right after a failed allocation - is left out.) *)
+Definition p_exec (s : st) (t : tid) : option st :=
+  if p_live s t then
+    match curr s t with
+    | Some i =>
+        let n := nbuf s t in
+        let s1 := set_data s (upd (upd (data s) (t, n) []) (t, S n) []) in
+        let s2 := set_flag s1 (upd (upd (flag s1) (t, n) fl_start) (t, S n) fl0) in
+        let s3 := set_stale s2 (upd (upd (stale s2) (t, n) 0%N) (t, S n) 0%N) in
+        let s4 := set_rbase s3 (updt (rbase s3) t n) in
+        let s5 := set_nbuf s4 (updt (nbuf s4) t (S (S n))) in
+        let s6 := set_curr s5 (updt (curr s5) t (Some n)) in
+        Some (set_chan s6 (chan s6 ++ [MStart (t, n); MExec (t, i)]))
+    | None => None
+    end
+  else None.
+
 Definition p_emit (c : cfg) (s : st) (t : tid) (r : rec) (pad : nat) (ok : bool) : option st :=
   if p_live s t then
     match curr s t with
@@ -295,6 +321,8 @@ Definition is_nil {A} (l : list A) : bool := match l with [] => true | _ => fals
 Definition record_mmap (s : st) (b : bufid) : st :=
   if f_rec (flag s b) && negb (is_nil (data s b)) then copy_to_buffer s b else s.
 
+Fixpoint first_tid (t : tid) (l : list bufid) : option bufid :=
+  match l with [] => None | x :: r => if Nat.eqb (fst x) t then Some x else first_tid t r end.
 Definition m_msg (s : st) : option st :=
   if stopped s then None else
   match chan s with
@@ -302,6 +330,11 @@ Definition m_msg (s : st) : option st :=
   | MStart b :: r => Some (set_shl (set_chan s r) (shl s ++ [b]))
   | MEnd b :: r => Some (record_mmap (set_shl (set_chan s r) (remove_first b (shl s))) b)
   | MLost n :: r => Some (set_lostcnt (set_chan s r) (lostcnt s + n)%N)
+  | MExec b :: r => (* flush_old_shmem: the first entry of shmem_list with this tid *)
+      match first_tid (fst b) (shl s) with
+      | Some b' => Some (record_mmap (set_shl (set_chan s r) (remove_first b' (shl s))) b')
+      | None => Some (set_chan s r)
+      end
   end.
 
 Fixpoint set_nth {A} (i : nat) (x : A) (l : list A) : list A :=
@@ -405,6 +438,7 @@ Definition m_rem1 (s : st) : option st :=
 
 Inductive label :=
 | P_start (t : tid) | P_emit (t : tid) (r : rec) (pad : nat) (ok : bool) | P_addlost (t : tid) (n : N) | P_finish (t : tid)
+| P_exec (t : tid)
 | M_msg
 | W_pick (w : nat) | W_write (w : nat) | W_release (w : nat) | W_splice (w : nat)
 | M_stop | M_join | M_flush1 | M_rem1.
@@ -415,6 +449,7 @@ Definition step (c : cfg) (s : st) (l : label) : option st :=
   | P_emit t r pad ok => p_emit c s t r pad ok
   | P_addlost t n => p_addlost s t n
   | P_finish t => p_finish s t
+  | P_exec t => p_exec s t
   | M_msg => m_msg s
   | W_pick w => w_pick s w
   | W_write w => w_write s w
@@ -490,6 +525,11 @@ Inductive op :=
 | OpE (t : tid) (k time : N) (pl : list byte)   (* mcount_entry of f<k> in thread t, saved argument bytes *)
 | OpX (t : tid) (time : N) (rpl : list byte)   (* mcount_exit in thread t, saved return value bytes *)
 | OpEnd (t : tid)                (* thread exit: mtd_dtor -> shmem_finish *)
+| OpExec (t : tid)               (* the task execs: new image, new session, empty rstack *)
+| OpExecE (t : tid) (k time : N) (pl : list byte)   (* exec, then the first hook call of the new image (libmcount
+                                    prepares the thread lazily: REC_START and TASK_START are sent then) *)
+| OpFork (p ch : tid)            (* fork in thread p: the child ch gets its buffers at once (atfork child handler),
+                                    inherits the frames, all marked written *)
 | OpFail (n : nat)               (* the next n shm_open(O_CREAT) fail *)
 | OpM                            (* recorder: next REC_START/REC_END/LOST message *)
 | OpW (w : nat)                  (* writer w: from its gate to the next gate *)
@@ -681,6 +721,25 @@ Definition exec_op (c : cfg) (sd : st * drv) (o : op) : option (st * drv) :=
       end
   | OpX t time rpl => exec_exit c s d t time rpl
   | OpEnd t => match p_finish s t with Some s' => Some (s', d) | None => None end
+  | OpExec t => match p_exec s t with
+                | Some s' => let n := nbuf s t in
+                             Some (s', {| stacks := updt (stacks d) t []; failn := failn d; base := base d;
+                                          img := upd (upd (img d) (t, n) []) (t, S n) [] |})
+                | None => None
+                end
+  | OpExecE t k time pl =>
+      match p_exec s t with
+      | Some s' => let n := nbuf s t in
+                   Some (s', {| stacks := updt (stacks d) t [{| fk := k; ftime := time; fwritten := false; fpl := pl |}];
+                                failn := failn d; base := base d; img := upd (upd (img d) (t, n) []) (t, S n) [] |})
+      | None => None
+      end
+  | OpFork p ch =>
+      match p_start s ch with
+      | Some s' => Some (s', set_stack d ch (map (fun f => {| fk := fk f; ftime := ftime f; fwritten := true; fpl := fpl f |})
+                                               (stacks d p)))
+      | None => None
+      end
   | OpFail n => Some (s, {| stacks := stacks d; failn := n; base := base d; img := img d |})
   | OpM => match chan s with [] => Some (s, d) | _ => match m_msg s with Some s' => Some (s', d) | None => None end end
   | OpW w => match exec_w s w with Some s' => Some (s', d) | None => None end
